@@ -77,7 +77,7 @@ BODIES_ALL: List[Tuple[int, List[int]]] = [
 BODIES_ENV: List[Tuple[int, List[int]]] = [(5, [0]), (5, [3, 2]), (5, [6])]
 
 STARTS = ["eager", "lazy", "never"]
-RETS = ["list", "generator", "iter_with_close"]
+RETS = ["list", "generator", "iter_with_close", "iterable_with_close"]
 RAISES = ["none", "before_start", "after_start", "mid_iteration"]
 CHUNKS = [[], [0], [3], [3, 0, 5], [0, 4, 0]]
 RESPONSES: List[Tuple[str, List[Tuple[str, str]]]] = [
@@ -352,6 +352,21 @@ class ClosableIter:
         self._rec.close_calls += 1
 
 
+class ClosableIterable:
+    """An iterable with a close() method whose __iter__ hands out a separate iterator (PEP 3333: close() of
+    the object the application RETURNED must be called)."""
+
+    def __init__(self, inner: Any, rec: Recorder) -> None:
+        self._inner = inner
+        self._rec = rec
+
+    def __iter__(self) -> Any:
+        return self._inner
+
+    def close(self) -> None:
+        self._rec.close_calls += 1
+
+
 def chunk_payloads(chunks: List[int]) -> List[bytes]:
     return [bytes([65 + (i % 26)]) * n for i, n in enumerate(chunks)]
 
@@ -397,6 +412,8 @@ def make_wsgi_app(shape: Dict[str, Any], rec: Recorder) -> Callable:
         gen = body(start_response)
         if ret == "iter_with_close":
             return ClosableIter(gen, rec)
+        if ret == "iterable_with_close":
+            return ClosableIterable(gen, rec)
 
         # a true generator: its close() is a C method, observed through the thread's profiler
         def profiler(frame: Any, event: str, arg: Any) -> None:
